@@ -7,6 +7,19 @@ def run(ctx):
     b = ctx.build("pic", "A")
     facts = ctx.facts(b, ["macros", "names", "scalar", "compton", "kissel", "protos", "bindings"])
     json.dump(open(os.path.join(b, "exports.txt")).read().split(), open(os.path.join(facts, "exports.json"), "w"))
+    # the one binding that can be executed here also reports what it publishes at run time (its physical constants are not literals in the
+    # source: they are read from the data file that java/pr_data_java.c generates)
+    import subprocess
+    from xrlcheck import VERIF
+    bp = ctx.build("plain", "A")
+    rj = subprocess.run([os.path.join(VERIF, "bin", "build_java"), bp], capture_output=True, text=True, timeout=1200)
+    if rj.returncode != 0: raise Broken("the Java sources do not compile / the Java data file generator failed\n" + rj.stderr[-800:])
+    jdir = rj.stdout.strip().splitlines()[-1]
+    rc = subprocess.run(["java", "-cp", os.path.join(jdir, "classes"), "JConsts"], cwd=os.path.join(jdir, "classes"), capture_output=True, text=True, timeout=600)
+    if rc.returncode != 0: raise Broken("JConsts failed: " + rc.stderr[-600:])
+    bj = json.load(open(os.path.join(facts, "bindings.json"))); bj["java_runtime"] = {"consts": json.loads(rc.stdout.strip().splitlines()[-1])}
+    if len(bj["java_runtime"]["consts"]) < 1000: raise Broken("JConsts reported only %d constants" % len(bj["java_runtime"]["consts"]))
+    json.dump(bj, open(os.path.join(facts, "bindings.json"), "w"))
     r = ctx.tlc_must_pass("MC_C20", env={"XRL_FACTS": facts}, workers=1)
     m = re.search(r'"COUNTS (.*)"\s*$', r["out"], flags=re.M)
     if not m: raise Broken("MC_C20 printed no COUNTS line")
